@@ -71,6 +71,29 @@ CHECKS.update({
    "runtime monitoring: exhaustive (leap) and boundary-value sweep through the real pipeline, decision-table oracle", "4/C10"),
 })
 
+CHECKS.update({
+ "C01": ("exploration",
+   "A virtual-time world in exact integer arithmetic (true time, a system clock drifting within the configured maximum and adversarially at it, a chronyd whose wire values are valid by construction and tight half of the time) drives in lock-step the real poller loop, the real ShmUpdater/FSM on its own thread, the real ShmWriter on a tmpfs file and real ClockBoundClients, through synchronisation losses, outages to 1200 s and daemon restarts; every trusted answer is checked to contain true time at the instant the realtime clock was read (tolerance 2 ns, + drift x tick with a coarse clock).",
+   "No clock steps; ideal monotonic clock; chronyd mocked at the ChronyOperations boundary (real socket path under C13).",
+   "runtime monitoring: simulation-driven execution of the real pipeline under an interposed clock, containment oracle on every client answer", "3.2, 4/C01"),
+ "C12": ("exploration",
+   "C01's world with delays of up to 30 s injected around chronyd's sampling instant and up to 2 s between the client's two clock reads, at maximum drift; monitors on the interposer's read log: as_of is a monotonic reading taken before the request was issued, now() reads realtime first then monotonic (also through the C ABI), a delay never shrinks the half-width, and containment still holds.",
+   "Delays are virtual time; the real code runs unmodified.",
+   "runtime monitoring: event-order monitor over the clock-read log + delay injection + containment oracle", "4/C12"),
+ "C13": ("exploration",
+   "Three layers: (1) mock level in C01's world, PHC always configured: message class per poll against the model, PHC bound attached iff reference ids match, published measurement frozen on PHC failure; (2) the real ClockErrorBoundPoller over a real unix datagram socket to a scripted in-process chronyd inside a private mount namespace, virtual Instant, failures placed at 5 s -1/0/+1 ns after the last good answer, at start-up, after long gaps; (3) the release clockbound binary with a chronyd stand-in in real time, status timeline of the real segment.",
+   "Layer 3 is judged only away from expected transitions (real time).",
+   "runtime monitoring: scripted fault schedules against the real poller (virtual time) and the real daemon (real time), reference-model oracle", "4/C13"),
+ "C15": ("fault_enumeration",
+   "Every failpoint of both worker loops and their start-up (9 sites) x {panic, return} x hit count x chronyd mode (absent, answering, silent) is injected into the hooked clockbound binary in its own mount namespace, plus natural faults on the release binary (segment path is a directory, PHC file unparsable at start or later); the time from the fault to process exit is measured and must stay under 15 s.",
+   "Wall-clock verdict by the nature of the property; failpoints are the hook sites.",
+   "runtime monitoring with enumerated fault injection into the real daemon process, exit-latency oracle", "4/C15"),
+ "C19": ("exploration",
+   "The release clockbound binary (guard off) is started in a private /run for each of a few hundred (thorough: thousands) --max-drift-rate values including every wrap boundary; the published max-drift field is read at the PROTOCOL.md offset or the refusal is observed.",
+   "2^32 values sampled, all wrap boundaries hit; no chronyd needed for the first publication.",
+   "runtime monitoring: black-box runs of the shipped binary in a sandbox, exact-value oracle", "4/C19"),
+})
+
 NOT_YET = {}
 
 
@@ -106,6 +129,7 @@ def main():
         "engines": [
             {"name": "clientsim", "path": "harness/clientsim + harness/cdriver", "serves_properties": ["C05", "C06", "C14", "C16", "C17"], "kind_free_text": "vector sweeps through real writer/segment/client under an interposed clock; C driver against libclockbound with ASan/UBSan/valgrind"},
             {"name": "daemonsim", "path": "harness/daemonsim", "serves_properties": ["C01", "C07", "C08", "C09", "C10", "C12", "C13"], "kind_free_text": "real process_messages/ShmUpdater/FSM and poller loop on their own threads over real channels, ShmWriter, readers and clients, under a per-thread virtual clock"},
+            {"name": "procbox", "path": "vlib/nsrun.py + vlib/sandbox.py", "serves_properties": ["C13", "C15", "C17", "C19"], "kind_free_text": "the real clockbound binary in a private mount namespace (tmpfs on /run, optionally /sys), chronyd stand-in speaking the chrony protocol, failpoint plans"},
             {"name": "shmsim", "path": "harness/shmsim", "serves_properties": ["C02", "C03", "C04", "C11", "C18"], "kind_free_text": "token scheduler over the hooked reader/writer, stop enumeration, sequential sweeps, Miri binary"},
         ],
         "checks": checks,
